@@ -120,7 +120,7 @@ def case_generate(rec, case):
     if route in ("cli", "sub") and ("\t" in vendor + cls):
         route = "lib"
     wd = rec.tmpdir()
-    out = drive.fresh(wd, ".hex")
+    out = drive.fresh_out(wd, ".hex")
     full = dict(case, vendor=vendor, cls=cls, size=size, addr=addr, route=route)
     exc = do_generate(route, out, vendor, cls, addr, size, dp, iu, sv, wd)
     rec.count("generate:route:" + route)
@@ -258,7 +258,7 @@ def case_merge(rec, case):
     r.shuffle(order)
     files = [files[i] for i in order]
     route = case.get("route") or gen_route(r, rec.tier)
-    out = drive.fresh(wd, ".hex")
+    out = drive.fresh_out(wd, ".hex")
     full = dict(case, addr=addr, size=size, placed=placed, scenario=scenario, route=route)
     exc = do_merge(route, out, addr, size, files, wd)
     rec.count("merge:route:" + route)
@@ -271,7 +271,7 @@ def case_merge(rec, case):
         if exc is None:
             rec.violation("mpi-merge-accepted-" + expect_reject,
                           f"merge accepted an input that is {expect_reject} ({scenario})", full)
-        elif os.path.exists(out):
+        elif drive.written(out):
             rec.violation("mpi-merge-file-written-on-reject", "merge failed but wrote the output file", full)
     else:
         if exc is not None:
